@@ -42,7 +42,7 @@ ASSUMPTIONS = [
 SHARD_TIMEOUT = {"quick": 400, "thorough": 1700}
 NSHARDS = 16
 CALL_KINDS = ["sync", "sync", "coro", "coro_raise", "gated", "gated", "gated_cancel", "start_task",
-              "start_task_fail"]  # fmt: skip
+              "start_task_fail", "coro_native_cancel"]  # fmt: skip
 
 
 F14_KEY = "portal:call-racing-with-loop-shutdown-hangs"
@@ -146,6 +146,24 @@ def execute(case: dict) -> dict:
             mon.ev("exec_end", cid, "cancelled")
             raise
 
+    async def native_cancel_fn(cid: int, work: int):  # noqa: ANN202
+        """ends with a NATIVE asyncio cancellation that concerns this call only (it awaits
+        a future its owner cancelled): the caller gets CancelledError, nobody else notices"""
+        import asyncio
+
+        mon.ev("exec_start", cid)
+        try:
+            for _ in range(work):
+                await checkpoint()
+        except anyio.get_cancelled_exc_class():
+            mon.ev("exec_end", cid, "cancelled")
+            raise
+
+        fut = asyncio.get_running_loop().create_future()
+        fut.cancel()
+        mon.ev("exec_end", cid, "native-cancelled")
+        await fut
+
     async def gated_fn(cid: int, work: int, *, task_status=None, fail_before=False):  # noqa: ANN001, ANN202
         mon.ev("exec_start", cid)
         try:
@@ -188,6 +206,9 @@ def execute(case: dict) -> dict:
                     rec["value"] = portal.call(coro_fn, cid, c["work"], False)
                 elif kind == "coro_raise":
                     rec["value"] = portal.call(coro_fn, cid, c["work"], True)
+                elif kind == "coro_native_cancel":
+                    window("call_ending_with_native_cancellation")
+                    rec["value"] = portal.call(native_cancel_fn, cid, c["work"])
                 elif kind in ("gated", "gated_cancel"):
                     futures[cid] = portal.start_task_soon(gated_fn, cid, c["work"])
                     rec["future"] = True
@@ -378,10 +399,19 @@ def execute(case: dict) -> dict:
             viol.append(("call-accepted-after-stop", {"cid": cid, "kind": kind}))
 
         if "exc" in rec:
-            # CancelledError from .result() when the portal cancelled the task is fine
+            # CancelledError from .result(): fine when the portal cancelled its tasks
+            # (stop(cancel_remaining=True) / body raised) or when the callable itself
+            # ended with a cancellation; nobody else may ever see one
             if "CancelledError" not in rec["exc"]:
                 viol.append(("caller-got-unexpected-exception", {"cid": cid, "exc": rec["exc"]}))
+            elif kind != "coro_native_cancel" and case["exit"] not in ("stop_cancel", "exception"):
+                viol.append(("call-cancelled-although-nobody-cancelled-it",
+                             {"cid": cid, "kind": kind, "exit": case["exit"]}))  # fmt: skip
 
+            continue
+
+        if kind == "coro_native_cancel":
+            viol.append(("native-cancellation-of-callable-not-reported", {"cid": cid, "got": repr(rec)[:80]}))
             continue
 
         if n_exec != 1:
